@@ -1,5 +1,513 @@
-import CffiVerif.Model.Index
+import CffiVerif.Proofs.Index
+
+/-!
+C16 — array and pointer indexing, slicing and arithmetic follow the C model.
+
+All statements are over the executable model `CffiVerif.Index` (Model/Index.lean) of
+`_cdata_get_indexed_ptr`, `_cdata_getslicearg`, `cdata_slice`, `cdata_ass_slice`,
+`_cdata_add_or_sub`, `cdata_sub`, `direct_typeoffsetof`; indexes are Python ints of any
+magnitude (`Int`), array lengths and sizes are arbitrary.
+-/
 namespace CffiVerif.C16
-open CffiVerif.Index
-theorem stub : wrapU 0 = 0 := by decide
+open CffiVerif.Mem CffiVerif.Index
+
+/-! ### `x[i]` -/
+
+/-- An array of length `n` accepts `x[i]` (read or write: both go through
+`indexedPtr`) iff `0 ≤ i < n`. -/
+theorem item_ok_iff (cd : CData) (n : Nat) (hk : cd.kind = .array n) (hn : (n : Int) ≤ ssizeMax)
+    (i : Int) : (∃ a, indexedPtr cd (.int i) = .ok a) ↔ (0 ≤ i ∧ i < n) := by
+  constructor
+  · intro ⟨a, h⟩
+    unfold indexedPtr at h
+    simp only [hk] at h
+    split at h
+    · cases h
+    · split at h
+      · cases h
+      · split at h
+        · cases h
+        · omega
+  · intro h
+    exact ⟨_, indexedPtr_array_ok cd n hk hn i h⟩
+
+/-- Every other index, of any magnitude, is an `IndexError`. -/
+theorem item_reject_is_IndexError (cd : CData) (n : Nat) (hk : cd.kind = .array n) (i : Int)
+    (h : ¬ (0 ≤ i ∧ i < n)) : indexedPtr cd (.int i) = .error .IndexError := by
+  unfold indexedPtr
+  simp only [hk]
+  split
+  · rfl
+  · split
+    · rfl
+    · split
+      · rfl
+      · omega
+
+/-- An owning pointer (`ffi.new("T *")`) accepts only index 0. -/
+theorem owning_ptr_only_zero (cd : CData) (hk : cd.kind = .ownptr) (i : Int) :
+    (∃ a, indexedPtr cd (.int i) = .ok a) ↔ i = 0 := by
+  unfold indexedPtr
+  simp only [hk]
+  constructor
+  · intro ⟨a, h⟩
+    split at h
+    · cases h
+    · split at h
+      · cases h
+      · omega
+  · intro h
+    subst h
+    have f : ¬ ¬ fitsSsize 0 := by unfold fitsSsize ssizeMin ssizeMax; omega
+    simp only [f, if_false, ne_eq, not_true_eq_false]
+    exact ⟨_, rfl⟩
+
+/-- A plain non-null pointer accepts every index that is a `Py_ssize_t`. -/
+theorem plain_ptr_any_index (cd : CData) (hk : cd.kind = .ptr) (hnn : cd.addr ≠ 0) (i : Int) :
+    (∃ a, indexedPtr cd (.int i) = .ok a) ↔ fitsSsize i := by
+  unfold indexedPtr
+  simp only [hk, hnn, if_false]
+  constructor
+  · intro ⟨a, h⟩
+    split at h
+    · cases h
+    · rename_i hf; simpa using hf
+  · intro h
+    simp only [h, not_true_eq_false, if_false]
+    exact ⟨_, rfl⟩
+
+/-! ### `x[i:j]` -/
+
+/-- An array of length `n` accepts `x[i:j]` iff `0 ≤ i ≤ j ≤ n`. -/
+theorem slice_ok_iff (cd : CData) (n : Nat) (hk : cd.kind = .array n) (hn : (n : Int) ≤ ssizeMax)
+    (i j : Int) :
+    (∃ r, sliceArg cd (.int i) (.int j) .none = .ok r) ↔ (0 ≤ i ∧ i ≤ j ∧ j ≤ n) := by
+  constructor
+  · intro ⟨r, h⟩
+    unfold sliceArg ssizeArg at h
+    simp only [hk] at h
+    by_cases f1 : fitsSsize i
+    · by_cases f2 : fitsSsize j
+      · simp only [f1, f2, if_true, ne_eq, not_true_eq_false, if_false] at h
+        split at h
+        · cases h
+        · split at h
+          · cases h
+          · split at h
+            · cases h
+            · omega
+      · simp only [f1, f2, if_true, if_false] at h
+        cases h
+    · simp only [f1, if_false] at h
+      cases h
+  · intro h
+    exact ⟨_, slice_ok_value cd n hk hn i j h⟩
+
+/-- … and the accepted slice is `(start, length) = (i, j - i)`. -/
+theorem slice_ok_bounds (cd : CData) (n : Nat) (hk : cd.kind = .array n) (hn : (n : Int) ≤ ssizeMax)
+    (i j : Int) (h : 0 ≤ i ∧ i ≤ j ∧ j ≤ n) :
+    sliceArg cd (.int i) (.int j) .none = .ok (i, j - i) :=
+  slice_ok_value cd n hk hn i j h
+
+/-- A slice with a step (any step object, also `1`) is never accepted. -/
+theorem slice_needs_no_step (cd : CData) (a b c : PyArg) (hc : c ≠ .none) :
+    ∃ e, sliceArg cd a b c = .error e := by
+  unfold sliceArg
+  split
+  · exact ⟨_, rfl⟩
+  · split
+    · exact ⟨_, rfl⟩
+    · rw [if_pos hc]; exact ⟨_, rfl⟩
+
+/-
+Full statement of the property (NOT true of the code): for an array of length n and ints
+i, j of any magnitude, `¬ (0 ≤ i ≤ j ≤ n) → sliceArg cd (.int i) (.int j) .none = .error .IndexError`.
+It fails when a bound does not fit a Py_ssize_t: `PyLong_AsSsize_t` raises OverflowError
+(witness `slice_huge_bound_is_OverflowError`).  Finding class C16/slice-bound-overflowerror.
+-/
+theorem slice_reject_is_IndexError_partial (cd : CData) (n : Nat) (hk : cd.kind = .array n)
+    (i j : Int) (hi : fitsSsize i) (hj : fitsSsize j) (h : ¬ (0 ≤ i ∧ i ≤ j ∧ j ≤ n)) :
+    sliceArg cd (.int i) (.int j) .none = .error .IndexError := by
+  unfold sliceArg ssizeArg
+  simp only [hk, hi, hj, if_true, ne_eq, not_true_eq_false, if_false]
+  split
+  · rfl
+  · split
+    · rfl
+    · split
+      · rfl
+      · omega
+
+/-- For ints of any magnitude a slice outside `0 ≤ i ≤ j ≤ n` is rejected, with
+IndexError or (bound beyond `Py_ssize_t`) OverflowError. -/
+theorem slice_reject_any (cd : CData) (n : Nat) (hk : cd.kind = .array n)
+    (i j : Int) (h : ¬ (0 ≤ i ∧ i ≤ j ∧ j ≤ n)) :
+    sliceArg cd (.int i) (.int j) .none = .error .IndexError ∨
+    sliceArg cd (.int i) (.int j) .none = .error .OverflowError := by
+  by_cases hi : fitsSsize i
+  · by_cases hj : fitsSsize j
+    · exact Or.inl (slice_reject_is_IndexError_partial cd n hk i j hi hj h)
+    · right
+      unfold sliceArg ssizeArg
+      simp only [hi, hj, if_true, if_false]
+  · right
+    unfold sliceArg ssizeArg
+    simp only [hi, if_false]
+
+/-- Witness: `x[1:2**70]` on an `int[5]` raises OverflowError, not IndexError. -/
+theorem slice_huge_bound_is_OverflowError :
+    sliceArg { kind := .array 5, addr := 4096, isize := 4, tid := 1, isChar := false, voidp := false }
+      (.int 1) (.int 1180591620717411303424) .none = .error .OverflowError := by
+  decide
+
+/-! ### rejected operations touch nothing -/
+
+/-- A store through a rejected index leaves the memory as it was and reports the
+index error (whatever the value is). -/
+theorem reject_touches_nothing_item (m : Memory) (cd : CData) (key : PyArg) (v : Item) (e : Err)
+    (h : indexedPtr cd key = .error e) : setitem m cd key v = (m, .error e) := by
+  unfold setitem; rw [h]
+
+/-- A slice assignment through a rejected slice leaves the memory as it was, whatever
+the right-hand side is. -/
+theorem reject_touches_nothing_slice (m : Memory) (cd : CData) (a b c : PyArg) (rhs : Rhs) (e : Err)
+    (h : sliceArg cd a b c = .error e) : assSlice m cd a b c rhs = (m, .error e) := by
+  unfold assSlice; rw [h]
+
+/-- For arrays: any index outside `[0, n)` / any slice outside `0 ≤ i ≤ j ≤ n`, of any
+magnitude, raises and leaves every byte unchanged (reads return no memory at all:
+`getitem`/`slice` have no memory result). -/
+theorem reject_touches_nothing (m : Memory) (cd : CData) (n : Nat) (hk : cd.kind = .array n)
+    (i j : Int) (v : Item) (rhs : Rhs) :
+    (¬ (0 ≤ i ∧ i < n) → setitem m cd (.int i) v = (m, .error .IndexError)) ∧
+    (¬ (0 ≤ i ∧ i ≤ j ∧ j ≤ n) → ∃ e, assSlice m cd (.int i) (.int j) .none rhs = (m, .error e)) := by
+  constructor
+  · intro h
+    exact reject_touches_nothing_item m cd _ v _ (item_reject_is_IndexError cd n hk i h)
+  · intro h
+    rcases slice_reject_any cd n hk i j h with h' | h'
+    · exact ⟨_, reject_touches_nothing_slice m cd _ _ _ rhs _ h'⟩
+    · exact ⟨_, reject_touches_nothing_slice m cd _ _ _ rhs _ h'⟩
+
+/-! ### a slice is a view -/
+
+/-- `x[i:j]` is an array of length `j - i` of the same item type whose item `k` *is*
+item `i + k` of `x`: same address, hence the same bytes on every read and the same
+effect on every write, in both directions. -/
+theorem slice_aliases (cd : CData) (n : Nat) (hk : cd.kind = .array n) (hn : (n : Int) ≤ ssizeMax)
+    (i j : Int) (h : 0 ≤ i ∧ i ≤ j ∧ j ≤ n) :
+    ∃ v, slice cd (.int i) (.int j) .none = .ok v ∧ v.kind = .array (j - i).toNat ∧
+      v.isize = cd.isize ∧ v.tid = cd.tid ∧
+      ∀ k : Int, 0 ≤ k → k < j - i →
+        indexedPtr v (.int k) = indexedPtr cd (.int (i + k)) ∧
+        (∀ m, getitem m v (.int k) = getitem m cd (.int (i + k))) ∧
+        (∀ m x, setitem m v (.int k) x = setitem m cd (.int (i + k)) x) := by
+  refine ⟨{ cd with kind := .array (j - i).toNat, addr := wrapU (cd.addr + cd.isize * i) },
+    ?_, rfl, rfl, rfl, ?_⟩
+  · unfold slice
+    rw [slice_ok_value cd n hk hn i j h]
+  · intro k hk0 hk1
+    have hptr : indexedPtr { cd with kind := .array (j - i).toNat, addr := wrapU (cd.addr + cd.isize * i) } (.int k)
+        = indexedPtr cd (.int (i + k)) := by
+      rw [indexedPtr_array_ok _ (j - i).toNat rfl (by unfold ssizeMax at *; omega) k (by omega),
+        indexedPtr_array_ok cd n hk hn (i + k) (by omega)]
+      simp only
+      rw [wrapU_add_mul_assoc]
+    refine ⟨hptr, ?_, ?_⟩
+    · intro m
+      unfold getitem
+      rw [hptr]
+    · intro m x
+      unfold setitem
+      rw [hptr]
+
+/-! ### slice assignment -/
+
+/-- Effect of `x[i:j] = iterable` when every item converts: the first
+`min(count, j - i)` items are stored contiguously at item `i`, and the assignment
+succeeds iff the count is exactly `j - i` (otherwise ValueError -- after the
+stores, as in the C loop). -/
+theorem ass_slice_effect (m : Memory) (cd : CData) (n : Nat) (hk : cd.kind = .array n)
+    (hn : (n : Int) ≤ ssizeMax) (hin : InAlloc m cd n) (i j : Int) (h : 0 ≤ i ∧ i ≤ j ∧ j ≤ n)
+    (vs : List Item) (hall : AllOk cd.isize.toNat vs) :
+    ∃ m', m.store (cd.addr + i.toNat * cd.isize.toNat) (payload (vs.take (j - i).toNat)) = .ok m' ∧
+      assSlice m cd (.int i) (.int j) .none (.items vs) =
+        (m', if vs.length = (j - i).toNat then .ok () else .error .ValueError) := by
+  obtain ⟨a, rfl⟩ := Int.eq_ofNat_of_zero_le h.1
+  obtain ⟨b, rfl⟩ := Int.eq_ofNat_of_zero_le (by omega : (0 : Int) ≤ j)
+  have hab : a ≤ b := by omega
+  have hbn : b ≤ n := by omega
+  obtain ⟨ea, er⟩ := slice_addr_exact m cd n hin a b hab hbn
+  have hl : ((b : Int) - (a : Int)).toNat = b - a := by omega
+  unfold assSlice
+  rw [slice_ok_value cd n hk hn _ _ h]
+  simp only [hl, Int.toNat_natCast, ea]
+  exact assLoop_spec cd.isize.toNat (b - a) vs m _ hall (by have := hin.2.1; omega) er
+
+/-- Slice assignment needs exactly `j - i` values. -/
+theorem ass_slice_needs_exact_count (m : Memory) (cd : CData) (n : Nat) (hk : cd.kind = .array n)
+    (hn : (n : Int) ≤ ssizeMax) (hin : InAlloc m cd n) (i j : Int) (h : 0 ≤ i ∧ i ≤ j ∧ j ≤ n)
+    (vs : List Item) (hall : AllOk cd.isize.toNat vs) :
+    ((assSlice m cd (.int i) (.int j) .none (.items vs)).2 = .ok () ↔ (vs.length : Int) = j - i) ∧
+    ((vs.length : Int) ≠ j - i →
+      (assSlice m cd (.int i) (.int j) .none (.items vs)).2 = .error .ValueError) := by
+  obtain ⟨m', _, he⟩ := ass_slice_effect m cd n hk hn hin i j h vs hall
+  rw [he]
+  have hl : vs.length = (j - i).toNat ↔ (vs.length : Int) = j - i := by omega
+  constructor
+  · constructor
+    · intro h1
+      by_cases c : vs.length = (j - i).toNat
+      · exact hl.mp c
+      · simp only [c, if_false] at h1; cases h1
+    · intro h1
+      simp only [hl.mpr h1, if_true]
+  · intro h1
+    have c : ¬ vs.length = (j - i).toNat := fun c => h1 (hl.mp c)
+    simp only [c, if_false]
+
+/-- The first item that does not convert stops the assignment with its own error and
+nothing is stored for it (items before it stay stored): case of a failing first item. -/
+theorem ass_slice_first_item_fails (m : Memory) (cd : CData) (n : Nat) (hk : cd.kind = .array n)
+    (hn : (n : Int) ≤ ssizeMax) (i j : Int) (h : 0 ≤ i ∧ i < j ∧ j ≤ n) (e : Err) (vs : List Item) :
+    assSlice m cd (.int i) (.int j) .none (.items (.error e :: vs)) = (m, .error e) := by
+  unfold assSlice
+  rw [slice_ok_value cd n hk hn i j (by omega)]
+  obtain ⟨l, hl⟩ : ∃ l, (j - i).toNat = l + 1 := ⟨(j - i).toNat - 1, by omega⟩
+  simp only [hl, assLoop, storeItem]
+
+/-! ### pointer arithmetic -/
+
+/-- `(p + i) - p == i` whenever `i * sizeof(T)` does not wrap a `Py_ssize_t`
+(`p` a pointer or an array; the address itself may wrap). -/
+theorem add_sub_inverse (p : CData)
+    (hk : p.kind = .ptr ∨ p.kind = .ownptr ∨ ∃ n, p.kind = .array n)
+    (hs : p.isize > 0) (ha : (p.addr : Int) < two64) (i : Int) (hi : fitsSsize i)
+    (hnw : fitsSsize (i * p.isize)) :
+    ∃ q, addInt p (.int i) 1 = .ok q ∧ q.kind = .ptr ∧ q.tid = p.tid ∧ ptrSub q p = .ok i := by
+  have hns : ¬ p.isize < 0 := by omega
+  have hq : addInt p (.int i) 1 =
+      .ok { p with kind := .ptr, addr := wrapU (p.addr + i * p.isize) } := by
+    unfold addInt
+    simp only [hi, not_true_eq_false, if_false, Int.mul_one, wrapS_of_fits i hi, hns]
+    rcases hk with h | h | ⟨n, h⟩ <;> rw [h]
+  refine ⟨_, hq, rfl, rfl, ?_⟩
+  unfold ptrSub
+  have hw : p.kind.isPtrOrArray = true := by
+    rcases hk with h | h | ⟨n, h⟩ <;> rw [h] <;> rfl
+  simp only [Kind.isPtr, hw, and_self, not_true_eq_false, if_false]
+  have c2 : ¬ (p.isize ≤ 0 ∧ p.voidp = false) := by omega
+  simp only [c2, if_false]
+  rw [wrapS_wrapU_sub p.addr ha _ hnw]
+  split
+  · have hne : p.isize ≠ 0 := by omega
+    have t1 : (i * p.isize).tmod p.isize = 0 := Int.mul_tmod_left i p.isize
+    have t2 : (i * p.isize).tdiv p.isize = i := Int.mul_tdiv_cancel i hne
+    simp only [t1, t2, ne_eq, not_true_eq_false, if_false]
+  · have : p.isize = 1 := by omega
+    rw [this, Int.mul_one]
+
+/-- `(p + i)[j]` aliases `p[i + j]`: whenever both are accepted they are the same address. -/
+theorem add_index_assoc (p : CData) (hk : p.kind = .ptr) (hs : 0 ≤ p.isize) (i j : Int)
+    (hi : fitsSsize i) (q : CData) (hq : addInt p (.int i) 1 = .ok q) (a b : Nat)
+    (ha : indexedPtr q (.int j) = .ok a) (hb : indexedPtr p (.int (i + j)) = .ok b) : a = b := by
+  have hns : ¬ p.isize < 0 := by omega
+  unfold addInt at hq
+  simp only [hi, not_true_eq_false, if_false, Int.mul_one, wrapS_of_fits i hi, hns, hk] at hq
+  injection hq with hq
+  subst hq
+  obtain ⟨j', hj', _, ea⟩ := index_addr _ _ a ha
+  obtain ⟨k', hk', _, eb⟩ := index_addr _ _ b hb
+  injection hj' with hj'; subst hj'
+  injection hk' with hk'; subst hk'
+  rw [ea, eb]
+  simp only
+  have := wrapU_add_mul_assoc p.addr p.isize i j
+  rw [Int.mul_comm p.isize i] at this
+  exact this
+
+/-- `p[i]` lives `i * sizeof(T)` bytes past `p` (modulo 2^64) … -/
+theorem index_addr (cd : CData) (key : PyArg) (a : Nat) (h : indexedPtr cd key = .ok a) :
+    ∃ i, key = .int i ∧ fitsSsize i ∧ a = wrapU (cd.addr + i * cd.isize) :=
+  Index.index_addr cd key a h
+
+/-- … exactly, for an array that lies inside the address space. -/
+theorem index_addr_exact (cd : CData) (n : Nat) (hk : cd.kind = .array n) (hs : 0 < cd.isize)
+    (hfit : (cd.addr : Int) + n * cd.isize ≤ two64) (i : Int) (a : Nat)
+    (h : indexedPtr cd (.int i) = .ok a) : (a : Int) = cd.addr + i * cd.isize := by
+  obtain ⟨i', hi', _, ha⟩ := Index.index_addr cd _ a h
+  injection hi' with hi'; subst hi'
+  have hb : 0 ≤ i ∧ i < n := by
+    unfold indexedPtr at h
+    simp only [hk] at h
+    split at h
+    · cases h
+    · split at h
+      · cases h
+      · split at h
+        · cases h
+        · omega
+  have m1 : i * cd.isize ≤ (n - 1) * cd.isize :=
+    Int.mul_le_mul_of_nonneg_right (by omega) (by omega)
+  have m0 : 0 ≤ i * cd.isize := Int.mul_nonneg hb.1 (by omega)
+  have e : ((n : Int) - 1) * cd.isize = n * cd.isize - cd.isize := by
+    rw [Int.sub_mul, Int.one_mul]
+  rw [ha]
+  revert m1 m0 hfit
+  rw [e]
+  generalize i * cd.isize = P
+  generalize (n : Int) * cd.isize = Q
+  unfold wrapU two64
+  intro _ _ _
+  omega
+
+/-! ### addressof / offsetof -/
+
+/-- `ffi.offsetof('T[]', i) == i * sizeof(T)` for every item size `≥ 0` (zero-sized items
+included), accepted exactly when `i` and the product fit a `Py_ssize_t`. -/
+theorem offsetof_eq_mul (isize : Int) (hs : isize ≥ 0) (hs2 : fitsSsize isize)
+    (i : Int) (off : Int) :
+    offsetof isize (.int i) = .ok off ↔ (fitsSsize i ∧ fitsSsize (i * isize) ∧ off = i * isize) := by
+  simp only [offsetof, typeOffsetof]
+  have c1 : ¬ (true = false ∨ isize < 0) := by simp; omega
+  by_cases hf : fitsSsize i
+  · simp only [hf, not_true_eq_false, if_false, c1, ne_eq, true_and]
+    by_cases hz : isize = 0
+    · subst hz
+      have hfit : fitsSsize (i * 0) := by
+        rw [Int.mul_zero]; unfold fitsSsize ssizeMin ssizeMax; omega
+      simp only [not_true_eq_false, false_and, if_false, hfit, true_and, wrapS_of_fits _ hfit]
+      constructor
+      · intro h; injection h with h; exact h.symm
+      · intro h; rw [h]
+    · have hpos : isize > 0 := by omega
+      have key := mulwrap_check i isize hpos hs2
+      by_cases hc : (wrapS (i * isize)).tdiv isize = i
+      · have hfit := key.mp hc
+        have hc' : (i * isize).tdiv isize = i := Int.mul_tdiv_cancel i hz
+        simp only [wrapS_of_fits _ hfit, hc', not_true_eq_false, and_false, if_false, hfit, true_and]
+        constructor
+        · intro h; injection h with h; exact h.symm
+        · intro h; rw [h]
+      · have hfit : ¬ fitsSsize (i * isize) := fun h => hc (key.mpr h)
+        simp only [hz, hc, not_false_eq_true, and_self, if_true, hfit, false_and, iff_false]
+        intro h; cases h
+  · simp only [hf, not_false_eq_true, if_true, false_and, iff_false]
+    intro h; cases h
+
+/-- The OverflowError of `offsetof` is raised exactly when the product does not fit
+(never for zero-sized items). -/
+theorem offsetof_overflow_iff (isize : Int) (hs : isize ≥ 0) (hs2 : fitsSsize isize) (i : Int)
+    (hi : fitsSsize i) :
+    offsetof isize (.int i) = .error .OverflowError ↔ ¬ fitsSsize (i * isize) := by
+  constructor
+  · intro h hfit
+    have := (offsetof_eq_mul isize hs hs2 i (i * isize)).mpr ⟨hi, hfit, rfl⟩
+    rw [h] at this
+    cases this
+  · intro hfit
+    simp only [offsetof, typeOffsetof]
+    have c1 : ¬ (true = false ∨ isize < 0) := by simp; omega
+    simp only [hi, not_true_eq_false, if_false, c1, ne_eq]
+    have hz : ¬ isize = 0 := by
+      intro hz; subst hz
+      apply hfit
+      rw [Int.mul_zero]; unfold fitsSsize ssizeMin ssizeMax; omega
+    have hc : ¬ (wrapS (i * isize)).tdiv isize = i :=
+      fun hc => hfit ((mulwrap_check i isize (by omega) hs2).mp hc)
+    simp only [hz, hc, not_false_eq_true, and_self, if_true]
+
+/-- Zero-sized items (`ffi.offsetof("int[][0]", i)`): offset 0 for every index that is a
+`Py_ssize_t`, no overflow, no division. -/
+theorem offsetof_zero_size_item (i : Int) (hi : fitsSsize i) : offsetof 0 (.int i) = .ok 0 := by
+  have hz : fitsSsize (0 : Int) := by unfold fitsSsize ssizeMin ssizeMax; omega
+  exact (offsetof_eq_mul 0 (by omega) hz i 0).mpr
+    ⟨hi, by rw [Int.mul_zero]; exact hz, by rw [Int.mul_zero]⟩
+
+/-- `ffi.addressof(x, i) == x + i` whenever `addressof` accepts `i`
+(same pointer type, same address). -/
+theorem addressof_eq_add (cd : CData) (hs : cd.isize ≥ 0) (hs2 : fitsSsize cd.isize) (i : Int)
+    (q : CData) (h : addressof cd (.int i) = .ok q) : addInt cd (.int i) 1 = .ok q := by
+  unfold addressof at h
+  split at h
+  · cases h
+  · rename_i off hoff
+    injection h with h
+    have hk : cd.kind.isPtrOrArray = true := by
+      cases hkk : cd.kind.isPtrOrArray
+      · rw [hkk] at hoff
+        unfold typeOffsetof at hoff
+        split at hoff
+        · cases hoff
+        · cases hoff
+        · split at hoff
+          · cases hoff
+          · simp at hoff
+      · rfl
+    rw [hk] at hoff
+    obtain ⟨f1, f2, f3⟩ := (offsetof_eq_mul cd.isize hs hs2 i off).mp hoff
+    unfold addInt
+    have hns : ¬ cd.isize < 0 := by omega
+    simp only [f1, not_true_eq_false, if_false, Int.mul_one, wrapS_of_fits i f1, hns]
+    rw [← h, f3]
+    cases hkind : cd.kind with
+    | other => rw [hkind] at hk; cases hk
+    | array n => rfl
+    | ptr => rfl
+    | ownptr => rfl
+
+/-- `addressof(x, i)` is accepted for an array or pointer exactly when `i` and
+`i * sizeof(T)` fit (it does no bounds check on arrays). -/
+theorem addressof_ok_iff (cd : CData) (hk : cd.kind.isPtrOrArray = true) (hs : cd.isize ≥ 0)
+    (hs2 : fitsSsize cd.isize) (i : Int) :
+    (∃ q, addressof cd (.int i) = .ok q) ↔ (fitsSsize i ∧ fitsSsize (i * cd.isize)) := by
+  unfold addressof
+  rw [hk]
+  constructor
+  · intro ⟨q, h⟩
+    split at h
+    · cases h
+    · rename_i off hoff
+      have := (offsetof_eq_mul cd.isize hs hs2 i off).mp hoff
+      exact ⟨this.1, this.2.1⟩
+  · intro ⟨h1, h2⟩
+    have := (offsetof_eq_mul cd.isize hs hs2 i (i * cd.isize)).mpr ⟨h1, h2, rfl⟩
+    unfold offsetof at this
+    rw [this]
+    exact ⟨_, rfl⟩
+
+/-! ### non-vacuity: a concrete `int32_t[5]` at address 4096 inside a 20-byte allocation -/
+
+def exArr : CData :=
+  { kind := .array 5, addr := 4096, isize := 4, tid := 1, isChar := false, voidp := false }
+def exMem : Memory :=
+  { base := 4096, bytes := [1, 0, 0, 0, 2, 0, 0, 0, 3, 0, 0, 0, 4, 0, 0, 0, 5, 0, 0, 0] }
+def exItems : List Item := [.ok [9, 9, 9, 9], .ok [8, 8, 8, 8]]
+
+example : exArr.kind = .array 5 := rfl
+example : ((5 : Nat) : Int) ≤ ssizeMax := by decide
+example : InAlloc exMem exArr 5 := by unfold InAlloc exMem exArr two64; decide
+example : AllOk exArr.isize.toNat exItems := by
+  intro v hv
+  simp only [exItems, List.mem_cons, List.not_mem_nil, or_false] at hv
+  rcases hv with rfl | rfl
+  · exact ⟨_, rfl, rfl⟩
+  · exact ⟨_, rfl, rfl⟩
+example : getitem exMem exArr (.int 2) = .ok [3, 0, 0, 0] := by decide
+example : getitem exMem exArr (.int 5) = .error .IndexError := by decide
+example : (assSlice exMem exArr (.int 1) (.int 3) .none (.items exItems)).2 = .ok () := by decide
+example : (assSlice exMem exArr (.int 1) (.int 4) .none (.items exItems)) =
+    ({ exMem with bytes := [1, 0, 0, 0, 9, 9, 9, 9, 8, 8, 8, 8, 4, 0, 0, 0, 5, 0, 0, 0] },
+     .error .ValueError) := by decide
+example : fitsSsize (3 * exArr.isize) := by unfold fitsSsize ssizeMin ssizeMax exArr; decide
+example : ∃ q, addInt exArr (.int 3) 1 = .ok q ∧ ptrSub q exArr = .ok 3 := by
+  obtain ⟨q, h1, _, _, h2⟩ := add_sub_inverse exArr (Or.inr (Or.inr ⟨5, rfl⟩)) (by decide)
+    (by unfold exArr two64; decide) 3 (by unfold fitsSsize ssizeMin ssizeMax; decide)
+    (by unfold fitsSsize ssizeMin ssizeMax exArr; decide)
+  exact ⟨q, h1, h2⟩
+example : offsetof 4 (.int 7) = .ok 28 := by decide
+example : offsetof 4 (.int 2305843009213693952) = .error .OverflowError := by decide
+example : addressof exArr (.int 7) = addInt exArr (.int 7) 1 := by decide
+example : offsetof 0 (.int 4611686018427387904) = .ok 0 := by decide
+
 end CffiVerif.C16
